@@ -350,6 +350,8 @@ pub fn realisations(rng: &mut Rng, a: &ArrayRef, k: usize) -> Vec<(String, Array
         ("view_repartition".into(), view_repartition(a)),
         ("ree_split".into(), ree_split(a)),
         ("list_child_offset".into(), list_child_offset(rng, a)),
+        // both at once: the parent's own offsets start above 0 AND the child carries an offset
+        ("pad_slice+list_child_offset".into(), pad_slice(rng, a).and_then(|x| list_child_offset(rng, &x))),
         ("pad_slice".into(), pad_slice(rng, a)),
         ("pad_slice_nonull".into(), if a.null_count() == 0 && a.nulls().is_none() { pad_slice_with(rng, a, 0).filter(|x| x.nulls().is_none()) } else { None }),
         ("garbage_under_nulls".into(), garbage_under_nulls(rng, a)),
